@@ -124,3 +124,20 @@ package seq
 //@   prop C10
 //@   requires p != nil
 //@   ensures result == len(p.seq) && Unchanged()
+//
+// Min / Max (C10: "Min/Max return a least/greatest element or None for empty input"): BOUNDED stand-in over
+// literal sequences of length 0..3, symbolic elements and a lawful Ord.
+//@ lemma seqMinMax3[T any](a, b, c T, o fp.Ord[T])
+//@   prop C10 C12
+//@   option unroll
+//@   requires veriflaws.OrdLaws(o)
+//@   ensures !Min(fp.Seq[T]{}, o).IsDefined() && !Max(fp.Seq[T]{}, o).IsDefined() && Eq(Min(fp.Seq[T]{b}, o), fp.Some(b)) && Eq(Max(fp.Seq[T]{b}, o), fp.Some(b))
+//@   tag emptyAndSingle
+//@   ensures Max(fp.Seq[T]{a, b, c}, o).IsDefined() && (Eq(Max(fp.Seq[T]{a, b, c}, o).Get(), a) || Eq(Max(fp.Seq[T]{a, b, c}, o).Get(), b) || Eq(Max(fp.Seq[T]{a, b, c}, o).Get(), c))
+//@   tag maxIsAnElement
+//@   ensures !o.Less(Max(fp.Seq[T]{a, b, c}, o).Get(), a) && !o.Less(Max(fp.Seq[T]{a, b, c}, o).Get(), b) && !o.Less(Max(fp.Seq[T]{a, b, c}, o).Get(), c)
+//@   tag maxIsGreatest
+//@   ensures Min(fp.Seq[T]{a, b, c}, o).IsDefined() && (Eq(Min(fp.Seq[T]{a, b, c}, o).Get(), a) || Eq(Min(fp.Seq[T]{a, b, c}, o).Get(), b) || Eq(Min(fp.Seq[T]{a, b, c}, o).Get(), c))
+//@   tag minIsAnElement
+//@   ensures !o.Less(a, Min(fp.Seq[T]{a, b, c}, o).Get()) && !o.Less(b, Min(fp.Seq[T]{a, b, c}, o).Get()) && !o.Less(c, Min(fp.Seq[T]{a, b, c}, o).Get())
+//@   tag minIsLeast
